@@ -73,6 +73,43 @@ def _retag(a, table, order, perm=None):
     return out + a[pos:]
 
 
+_ALT = _re.compile(r"↓\{([A-Za-z0-9_|]+)\}")
+
+
+_UNIT_EQ = _re.compile(r"^eq\(((?:[A-Za-z_][A-Za-z0-9_]*::)+)([A-Z][A-Za-z0-9_]*)\(\), (.*)\)$")
+_UNIT_EQ_R = _re.compile(r"^eq\((.*), ((?:[A-Za-z_][A-Za-z0-9_]*::)+)([A-Z][A-Za-z0-9_]*)\(\)\)$")
+
+
+def _unit_variant_eq(a):
+    if not isinstance(a, str):
+        return a
+    m = _UNIT_EQ.match(a)
+    if m:
+        return "is(%s; %s)" % (m.group(3), m.group(2))
+    m = _UNIT_EQ_R.match(a)
+    if m and m.group(1).count("(") == m.group(1).count(")"):
+        return "is(%s; %s)" % (m.group(1), m.group(3))
+    return a
+
+
+def expand_alternatives(f):
+    """an atom about a path through an or-pattern (`P(x↓{A|B}.1)`, what `A(_, l, _) | B(_, l, _) => P(l)` extracts to) is, by definition, `x is A and
+    P(x↓A.1), or x is B and P(x↓B.1)`: written out on both sides, so that one arm for both alternatives and one arm per alternative compare equal"""
+    def fn(key):
+        if not isinstance(key, str):
+            return None
+        m = _ALT.search(key)
+        if not m or m.group(1).count("|") > 2:
+            return None  # (an arm for a dozen alternatives stays one arm: written out it is a dozen copies of every atom)
+        prefix = _list_before(key, m.start())
+        out = []
+        for a in m.group(1).split("|"):
+            k2 = key[:m.start()] + "↓" + a + key[m.end():]
+            out.append(B.And(B.atom("is(%s; %s)" % (prefix, a)), expand_alternatives(B.atom(k2))))
+        return B.Or(*out)
+    return B.subst_atoms(f, fn)
+
+
 def canonical_tags(code, spec_must, spec_may):
     ct, co, st, so = {}, [], {}, []
     # (atoms are visited in a fixed order so that the numbering does not depend on hashing)
@@ -165,6 +202,13 @@ def compare(rule, crate, sm, body, det, label=None, subst=None):
     # number. The numbers are therefore made canonical per list (1, 2, .. in order of first occurrence) on both sides - whether two existentials over
     # different lists were produced by one flag or by two makes no difference - and the remaining freedom (which of two variables over the same
     # list is #1) is searched
+    # `x == Kind::Variant` and `matches!(x, Kind::Variant)` / a match arm are one test: eq(Kind::Variant(), x)  ->  is(x; Variant)
+    code = {ps: B.rename(f, _unit_variant_eq) for ps, f in code.items()}
+    spec_must = {ps: B.rename(f, _unit_variant_eq) for ps, f in spec_must.items()}
+    spec_may = {ps: B.rename(f, _unit_variant_eq) for ps, f in spec_may.items()}
+    code = {ps: expand_alternatives(f) for ps, f in code.items()}
+    spec_must = {ps: expand_alternatives(f) for ps, f in spec_must.items()}
+    spec_may = {ps: expand_alternatives(f) for ps, f in spec_may.items()}
     code, spec_must, spec_may = canonical_tags(code, spec_must, spec_may)
     for ps in sorted(set(code) | set(spec_must)):
         short = shorten(ps)
